@@ -186,7 +186,7 @@ func tk3(cs [][][]geom.Coord) [][][][]int {
 func tkMP(cs []geom.Coord) [][]int {
 	out := make([][]int, len(cs))
 	for i, c := range cs {
-		if c == nil {
+		if len(c) == 0 { // an empty member (nil or zero-length: the distinction is not promised)
 			out[i] = []int{-1}
 		} else {
 			out[i] = toks(c)
